@@ -130,7 +130,8 @@ let ch_c17 hex classes =
   String.iteri (fun i c ->
     if c = 'B' && !first_b < 0 then first_b := i;
     if !first_b >= 0 && c <> 'B' then begin
-      let lim k = if k = n - 1 then 0 else k + 1 in
+      (* the string is indexed by limit 1..len+1, then three limits far beyond the input, then limit 0 *)
+      let lim k = if k = n - 1 then 0 else if k >= n - 4 then (match n - 1 - k with 3 -> 67108865 | 2 -> 2147483648 | _ -> 4294967295) else k + 1 in
       propfail "C17" (Printf.sprintf "binary at limit %d but %s at limit %d: input=%s" (lim !first_b) (if c = 'T' then "text" else "unknown") (lim i) hex);
       first_b := -2 - n   (* report once per input *)
     end) classes
